@@ -43,3 +43,472 @@ Proof.
   - constructor; [apply N.ltb_lt in E; lia | constructor].
   - constructor; [|apply IH]. assert (x mod 128 < 128) by (apply N.mod_lt; lia). lia.
 Qed.
+
+Lemma varint_enc_cons x : exists a t, varint_enc x = a :: t.
+Proof.
+  unfold varint_enc. cbn [venc]. destruct (x <? 128); eauto.
+Qed.
+
+(* ------------------------------------------------------------------ *)
+(* raw fields: parse inverts ser                                       *)
+(* ------------------------------------------------------------------ *)
+Definition wf_rfield (f : rfield) : Prop :=
+  1 <= fst f /\ fst f <= max_field /\
+  match snd f with
+  | RVar v => v < two64
+  | RLen p => N.of_nat (length p) < two64
+  | RSkip => False
+  end.
+
+Lemma parse_tag_enc num wt r :
+  1 <= num -> num <= max_field -> wt < 8 ->
+  parse_tag (varint_enc (num * 8 + wt) ++ r) = Some (num, wt, r).
+Proof.
+  intros H1 H2 H3. unfold parse_tag. unfold max_field in *.
+  rewrite varint_roundtrip by (unfold two64; lia).
+  assert (E1 : (num * 8 + wt) / 8 = num).
+  { symmetry. apply (N.div_unique _ 8 num wt); lia. }
+  assert (E2 : (num * 8 + wt) mod 8 = wt).
+  { symmetry. apply (N.mod_unique _ 8 num wt); lia. }
+  rewrite E1, E2.
+  replace (1 <=? num) with true by (symmetry; apply N.leb_le; lia).
+  replace (num <=? 536870911) with true by (symmetry; apply N.leb_le; lia).
+  reflexivity.
+Qed.
+
+Lemma take_n_app (p r : bytes) : take_n (length p) (p ++ r) = Some (p, r).
+Proof.
+  unfold take_n. rewrite app_length.
+  replace (Nat.leb (length p) (length p + length r)) with true by (symmetry; apply Nat.leb_le; lia).
+  rewrite firstn_app, Nat.sub_diag, firstn_all, skipn_app, Nat.sub_diag, skipn_all. simpl.
+  rewrite app_nil_r. reflexivity.
+Qed.
+
+Lemma parse_one_ser f r : wf_rfield f -> parse_one (ser_one f ++ r) = Some (f, r).
+Proof.
+  destruct f as [num [v|p|]]; intros (H1 & H2 & H3); cbn [fst snd] in *; try contradiction.
+  - unfold parse_one. cbn [ser_one]. rewrite <- app_assoc.
+    replace (num * 8) with (num * 8 + 0) by lia.
+    rewrite parse_tag_enc by lia. cbn [N.eqb].
+    rewrite varint_roundtrip by assumption. reflexivity.
+  - unfold parse_one. cbn [ser_one]. rewrite <- !app_assoc.
+    rewrite parse_tag_enc by lia.
+    change (2 =? 0) with false. change (2 =? 2) with true. cbn iota.
+    rewrite varint_roundtrip by assumption.
+    rewrite Nnat.Nat2N.id, take_n_app. reflexivity.
+Qed.
+
+Lemma ser_one_cons f : wf_rfield f -> exists a t, ser_one f = a :: t.
+Proof.
+  destruct f as [num [v|p|]]; intros (_ & _ & H); cbn [snd] in H; try contradiction; cbn [ser_one].
+  - destruct (varint_enc_cons (num * 8)) as (a & t & E). rewrite E. simpl. eauto.
+  - destruct (varint_enc_cons (num * 8 + 2)) as (a & t & E). rewrite E. simpl. eauto.
+Qed.
+
+Lemma ser_cons f fs : ser (f :: fs) = ser_one f ++ ser fs.
+Proof. reflexivity. Qed.
+
+Lemma ser_app a b : ser (a ++ b) = ser a ++ ser b.
+Proof. unfold ser. rewrite map_app, concat_app. reflexivity. Qed.
+
+Lemma parse_raw_step f b : b <> [] ->
+  parse_raw (S f) b =
+  match parse_one b with
+  | Some (x, r) => match parse_raw f r with Some xs => Some (x :: xs) | None => None end
+  | None => None
+  end.
+Proof. destruct b; [congruence | reflexivity]. Qed.
+
+Lemma parse_raw_ser fs : forall fuel,
+  Forall wf_rfield fs -> (length fs <= fuel)%nat -> parse_raw fuel (ser fs) = Some fs.
+Proof.
+  induction fs as [|f fs IH]; intros fuel Hw Hf.
+  - destruct fuel; reflexivity.
+  - inversion Hw as [|? ? Hf1 Hfs]; subst.
+    destruct fuel as [|fuel]; [simpl in Hf; lia|].
+    rewrite ser_cons.
+    destruct (ser_one_cons f Hf1) as (a & t & E).
+    rewrite parse_raw_step by (rewrite E; discriminate).
+    rewrite parse_one_ser by assumption.
+    rewrite IH; [reflexivity | assumption | simpl in Hf; lia].
+Qed.
+
+Lemma ser_length_ge fs : Forall wf_rfield fs -> (length fs <= length (ser fs))%nat.
+Proof.
+  induction 1 as [|f fs Hf _ IH]; [simpl; lia|].
+  rewrite ser_cons, app_length. destruct (ser_one_cons f Hf) as (a & t & E). rewrite E. simpl. lia.
+Qed.
+
+Lemma parse_ser fs : Forall wf_rfield fs -> parse (ser fs) = Some fs.
+Proof. intros H. unfold parse. apply parse_raw_ser; [assumption | apply ser_length_ge; assumption]. Qed.
+
+(* ------------------------------------------------------------------ *)
+(* messages: decode inverts encode                                     *)
+(* ------------------------------------------------------------------ *)
+Scheme fty_mut := Induction for fty Sort Prop
+  with schema_mut := Induction for schema Sort Prop.
+Combined Scheme fty_schema_ind from fty_mut, schema_mut.
+
+(* every length-delimited payload of the encoding is shorter than 2^64 bytes *)
+Fixpoint fits_val (t : fty) (v : val) : bool :=
+  match t, v with
+  | TMsg s, VMsg (Some m) => (N.of_nat (length (encode s m)) <? two64) && fits_msg s m
+  | TRep s, VRep ms => forallb (fun m => (N.of_nat (length (encode s m)) <? two64) && fits_msg s m) ms
+  | (TBytes | TString), VBytes b => N.of_nat (length b) <? two64
+  | _, _ => true
+  end
+with fits_msg (s : schema) (m : msg) : bool :=
+  match s, m with
+  | SCons _ t s', v :: m' => fits_val t v && fits_msg s' m'
+  | _, _ => true
+  end.
+
+Lemma vars_of_app n a b : vars_of n (a ++ b) = vars_of n a ++ vars_of n b.
+Proof.
+  induction a as [|[k [v|p|]] a IH]; cbn [app vars_of]; auto.
+  destruct (k =? n); cbn [app]; rewrite IH; reflexivity.
+Qed.
+Lemma lens_of_app n a b : lens_of n (a ++ b) = lens_of n a ++ lens_of n b.
+Proof.
+  induction a as [|[k [v|p|]] a IH]; cbn [app lens_of]; auto.
+  destruct (k =? n); cbn [app]; rewrite IH; reflexivity.
+Qed.
+Lemma vars_of_none n rs : Forall (fun f => fst f <> n) rs -> vars_of n rs = [].
+Proof.
+  induction 1 as [|[k [v|p|]] rs H _ IH]; cbn [vars_of]; auto.
+  cbn [fst] in H. apply N.eqb_neq in H. rewrite H. exact IH.
+Qed.
+Lemma lens_of_none n rs : Forall (fun f => fst f <> n) rs -> lens_of n rs = [].
+Proof.
+  induction 1 as [|[k [v|p|]] rs H _ IH]; cbn [lens_of]; auto.
+  cbn [fst] in H. apply N.eqb_neq in H. rewrite H. exact IH.
+Qed.
+
+Lemma raw_val_nums t num v : Forall (fun f => fst f = num) (raw_val t num v).
+Proof.
+  destruct t, v; cbn [raw_val]; try constructor;
+    try (match goal with |- context [if ?c then _ else _] => destruct c end; repeat constructor);
+    try (match goal with |- context [match ?b with [] => _ | _ => _ end] => destruct b end; repeat constructor).
+  - destruct m; repeat constructor.
+  - induction ms; cbn [map]; constructor; auto.
+Qed.
+
+Lemma raw_fields_nums s : forall m, Forall (fun f => In (fst f) (nums s)) (raw_fields s m).
+Proof.
+  induction s as [|num t s' IH]; intros m; cbn [raw_fields]; [constructor|].
+  destruct m as [|v m']; [constructor|].
+  apply Forall_app. split.
+  - eapply Forall_impl; [|apply raw_val_nums]. intros f E. cbn [nums]. left. auto.
+  - eapply Forall_impl; [|apply IH]. intros f E. cbn [nums]. right. exact E.
+Qed.
+
+Lemma scalar_ok_lt t n : scalar_ok t n = true -> n < two64.
+Proof.
+  unfold scalar_ok, two64, two32, two31. destruct t; intros H; try discriminate; lia.
+Qed.
+
+Lemma raw_val_wf t num v :
+  1 <= num -> num <= max_field -> wf_val t v = true -> fits_val t v = true ->
+  Forall wf_rfield (raw_val t num v).
+Proof.
+  intros H1 H2 Hw Hf. unfold wf_rfield.
+  destruct t, v; cbn [raw_val wf_val fits_val] in *; try discriminate; try constructor;
+    try (destruct (n =? 0); repeat constructor; cbn [fst snd]; auto; eapply scalar_ok_lt; eassumption).
+  - destruct b; repeat constructor; cbn [fst snd]; auto. apply N.ltb_lt in Hf. exact Hf.
+  - destruct b; repeat constructor; cbn [fst snd]; auto. apply N.ltb_lt in Hf. exact Hf.
+  - destruct m; repeat constructor; cbn [fst snd]; auto.
+    apply andb_true_iff in Hf. destruct Hf as [Hf _]. apply N.ltb_lt in Hf. exact Hf.
+  - induction ms as [|m ms IH]; cbn [map]; constructor.
+    + cbn [forallb] in Hf. apply andb_true_iff in Hf. destruct Hf as [Hf _].
+      apply andb_true_iff in Hf. destruct Hf as [Hf _]. apply N.ltb_lt in Hf.
+      cbn [fst snd]. auto.
+    + apply IH.
+      * cbn [forallb] in Hw. apply andb_true_iff in Hw. apply Hw.
+      * cbn [forallb] in Hf. apply andb_true_iff in Hf. apply Hf.
+Qed.
+
+Lemma wf_schema_cons num t s :
+  wf_schema (SCons num t s) = true ->
+  1 <= num /\ num <= max_field /\ ~ In num (nums s) /\ wf_fty t = true /\ wf_schema s = true.
+Proof.
+  cbn [wf_schema]. rewrite !andb_true_iff. intros ((((A & B) & C) & D) & E).
+  apply N.leb_le in A. apply N.leb_le in B. repeat split; auto.
+  intros Hin. apply negb_true_iff in C.
+  assert (existsb (N.eqb num) (nums s) = true) by (apply existsb_exists; exists num; split; [assumption | apply N.eqb_refl]).
+  congruence.
+Qed.
+
+Lemma raw_fields_wf s : forall m,
+  wf_schema s = true -> wf_msg s m = true -> fits_msg s m = true -> Forall wf_rfield (raw_fields s m).
+Proof.
+  induction s as [|num t s' IH]; intros m Hs Hw Hf; cbn [raw_fields]; [constructor|].
+  destruct m as [|v m']; [constructor|].
+  apply wf_schema_cons in Hs. destruct Hs as (A & B & _ & _ & E).
+  cbn [wf_msg fits_msg] in Hw, Hf. apply andb_true_iff in Hw, Hf.
+  apply Forall_app. split; [apply raw_val_wf; tauto | apply IH; tauto].
+Qed.
+
+Lemma dec_fields_ext s : forall rs1 rs2,
+  (forall n, In n (nums s) -> vars_of n rs1 = vars_of n rs2 /\ lens_of n rs1 = lens_of n rs2) ->
+  dec_fields s rs1 = dec_fields s rs2.
+Proof.
+  induction s as [|num t s' IH]; intros rs1 rs2 H; cbn [dec_fields]; [reflexivity|].
+  destruct (H num) as [E1 E2]; [cbn [nums]; left; reflexivity|].
+  rewrite E1, E2, (IH rs1 rs2); [reflexivity|].
+  intros n Hn. apply H. cbn [nums]. right. exact Hn.
+Qed.
+
+Lemma norm_scalar_id t n : scalar_ok t n = true -> norm_scalar t n = n.
+Proof.
+  unfold scalar_ok, norm_scalar, sext32, two64, two32, two31.
+  destruct t; intros H; try discriminate.
+  - apply N.mod_small. lia.
+  - apply N.mod_small. lia.
+  - pose proof (N.div_mod n 4294967296 ltac:(lia)) as D.
+    pose proof (N.mod_lt n 4294967296 ltac:(lia)) as L.
+    set (q := n / 4294967296) in *. set (w := n mod 4294967296) in *.
+    destruct (w <? 2147483648) eqn:E; lia.
+  - apply N.mod_small. lia.
+  - pose proof (N.div_mod n 4294967296 ltac:(lia)) as D.
+    pose proof (N.mod_lt n 4294967296 ltac:(lia)) as L.
+    set (q := n / 4294967296) in *. set (w := n mod 4294967296) in *.
+    destruct (w <? 2147483648) eqn:E; lia.
+  - destruct (n =? 0) eqn:E; lia.
+Qed.
+
+Lemma parse_all_sers s ms :
+  Forall (fun m => Forall wf_rfield (raw_fields s m)) ms ->
+  parse_all (map (fun m => ser (raw_fields s m)) ms) = Some (map (raw_fields s) ms).
+Proof.
+  induction 1 as [|m ms H _ IH]; cbn [map parse_all]; [reflexivity|].
+  rewrite parse_ser by assumption. rewrite IH. reflexivity.
+Qed.
+
+Lemma lens_of_rep num (f : msg -> bytes) ms :
+  lens_of num (map (fun m => (num, RLen (f m))) ms) = map f ms.
+Proof.
+  induction ms as [|m ms IH]; cbn [map lens_of]; [reflexivity|].
+  rewrite N.eqb_refl, IH. reflexivity.
+Qed.
+Lemma vars_of_rep num (f : msg -> bytes) ms :
+  vars_of num (map (fun m => (num, RLen (f m))) ms) = [].
+Proof. induction ms as [|m ms IH]; cbn [map vars_of]; auto. Qed.
+
+Theorem roundtrip_mut :
+  (forall t, forall num v, wf_fty t = true -> wf_val t v = true -> fits_val t v = true ->
+     dec_val t (vars_of num (raw_val t num v)) (lens_of num (raw_val t num v)) = Some v)
+  /\
+  (forall s, forall m, wf_schema s = true -> wf_msg s m = true -> fits_msg s m = true ->
+     dec_fields s (raw_fields s m) = Some m).
+Proof.
+  apply fty_schema_ind.
+  (* scalars *)
+  1-6: intros num v _ Hw _; destruct v; cbn [wf_val] in Hw; try discriminate;
+       cbn [raw_val]; destruct (n =? 0) eqn:E;
+       [ apply N.eqb_eq in E; subst n; cbn [vars_of lens_of dec_val last]; rewrite norm_scalar_id by assumption; reflexivity
+       | cbn [vars_of lens_of]; rewrite N.eqb_refl; cbn [dec_val last]; rewrite norm_scalar_id by assumption; reflexivity ].
+  - (* bytes *)
+    intros num v _ Hw _. destruct v; cbn [wf_val] in Hw; try discriminate.
+    cbn [raw_val]. destruct b as [|x b]; [reflexivity|].
+    cbn [vars_of lens_of]. rewrite N.eqb_refl. reflexivity.
+  - (* string *)
+    intros num v _ Hw _. destruct v; cbn [wf_val] in Hw; try discriminate.
+    cbn [raw_val]. destruct b as [|x b]; [reflexivity|].
+    cbn [vars_of lens_of]. rewrite N.eqb_refl. cbn [dec_val forallb last]. rewrite Hw. reflexivity.
+  - (* message *)
+    intros s IH num v Hs Hw Hf. destruct v as [| |[m|]|]; cbn [wf_val] in Hw; try discriminate.
+    + cbn [raw_val vars_of lens_of]. rewrite N.eqb_refl. cbn [dec_val parse_all].
+      cbn [wf_fty] in Hs. cbn [fits_val] in Hf. apply andb_true_iff in Hf. destruct Hf as [_ Hf].
+      rewrite parse_ser by (apply raw_fields_wf; assumption).
+      cbn [concat]. rewrite app_nil_r. rewrite IH by assumption. reflexivity.
+    + reflexivity.
+  - (* repeated message *)
+    intros s IH num v Hs Hw Hf. destruct v; cbn [wf_val] in Hw; try discriminate.
+    cbn [raw_val]. rewrite lens_of_rep. cbn [dec_val]. cbn [wf_fty] in Hs. cbn [fits_val] in Hf.
+    assert (HF : Forall (fun m => wf_msg s m = true /\ fits_msg s m = true) ms).
+    { apply Forall_forall. intros m Hin. rewrite forallb_forall in Hw, Hf. split; [apply Hw; assumption|].
+      specialize (Hf m Hin). apply andb_true_iff in Hf. apply Hf. }
+    rewrite parse_all_sers.
+    + assert (E : all_some (map (dec_fields s) (map (raw_fields s) ms)) = Some ms).
+      { clear Hw Hf. induction HF as [|m ms [A B] _ IHms]; cbn [map all_some]; [reflexivity|].
+        rewrite IH by assumption. rewrite IHms. reflexivity. }
+      rewrite E. reflexivity.
+    + eapply Forall_impl; [|exact HF]. intros m [A B]. apply raw_fields_wf; assumption.
+  - (* SNil *)
+    intros m _ Hw _. destruct m; cbn [wf_msg] in Hw; [reflexivity | discriminate].
+  - (* SCons *)
+    intros num t IHt s' IHs m Hs Hw Hf. destruct m as [|v m']; cbn [wf_msg] in Hw; [discriminate|].
+    apply wf_schema_cons in Hs. destruct Hs as (A & B & C & D & E).
+    apply andb_true_iff in Hw. destruct Hw as [Hw1 Hw2].
+    cbn [fits_msg] in Hf. apply andb_true_iff in Hf. destruct Hf as [Hf1 Hf2].
+    cbn [raw_fields dec_fields].
+    rewrite vars_of_app, lens_of_app.
+    rewrite (vars_of_none num (raw_fields s' m')), (lens_of_none num (raw_fields s' m')), !app_nil_r.
+    2,3: eapply Forall_impl; [|apply raw_fields_nums]; intros f Hin Heq; cbn beta in Hin; rewrite Heq in Hin; contradiction.
+    rewrite IHt by assumption.
+    rewrite (dec_fields_ext s' _ (raw_fields s' m')).
+    + rewrite IHs by assumption. reflexivity.
+    + intros n Hn. rewrite vars_of_app, lens_of_app.
+      rewrite (vars_of_none n (raw_val t num v)), (lens_of_none n (raw_val t num v)); [split; reflexivity | |].
+      all: eapply Forall_impl; [|apply raw_val_nums]; intros f Heq Hne; cbn beta in Heq; subst n; rewrite Heq in Hn; contradiction.
+Qed.
+
+Theorem decode_encode_fits s m :
+  wf_schema s = true -> wf_msg s m = true -> fits_msg s m = true ->
+  decode s (encode s m) = Some m.
+Proof.
+  intros Hs Hw Hf. unfold decode, encode.
+  rewrite parse_ser by (apply raw_fields_wf; assumption).
+  apply (proj2 roundtrip_mut); assumption.
+Qed.
+
+(* ---- the size condition follows from a bound on the whole encoding ---- *)
+Lemma ser_one_len_ge num p : (length p <= length (ser_one (num, RLen p)))%nat.
+Proof. cbn [ser_one]. rewrite !app_length. lia. Qed.
+
+Lemma fits_mut :
+  (forall t, forall num v, N.of_nat (length (ser (raw_val t num v))) < two64 -> fits_val t v = true)
+  /\
+  (forall s, forall m, N.of_nat (length (encode s m)) < two64 -> fits_msg s m = true).
+Proof.
+  apply fty_schema_ind.
+  1-6: intros num v _; destruct v; reflexivity.
+  - intros num v H. destruct v; try reflexivity. cbn [fits_val]. apply N.ltb_lt.
+    cbn [raw_val] in H. destruct b as [|x b]; [unfold two64; simpl; lia|].
+    rewrite ser_cons, app_length in H. pose proof (ser_one_len_ge num (x :: b)). lia.
+  - intros num v H. destruct v; try reflexivity. cbn [fits_val]. apply N.ltb_lt.
+    cbn [raw_val] in H. destruct b as [|x b]; [unfold two64; simpl; lia|].
+    rewrite ser_cons, app_length in H. pose proof (ser_one_len_ge num (x :: b)). lia.
+  - intros s IH num v H. destruct v as [| |[m|]|]; try reflexivity.
+    cbn [fits_val]. cbn [raw_val] in H. rewrite ser_cons, app_length in H.
+    pose proof (ser_one_len_ge num (ser (raw_fields s m))) as L.
+    assert (B : N.of_nat (length (encode s m)) < two64) by (unfold encode; lia).
+    apply andb_true_iff. split; [apply N.ltb_lt; exact B | apply IH; exact B].
+  - intros s IH num v H. destruct v; try reflexivity.
+    cbn [fits_val]. cbn [raw_val] in H.
+    induction ms as [|m ms IHms]; [reflexivity|].
+    cbn [map] in H. rewrite ser_cons, app_length in H.
+    pose proof (ser_one_len_ge num (ser (raw_fields s m))) as L.
+    assert (B : N.of_nat (length (encode s m)) < two64) by (unfold encode; lia).
+    cbn [forallb]. apply andb_true_iff. split.
+    + apply andb_true_iff. split; [apply N.ltb_lt; exact B | apply IH; exact B].
+    + apply IHms. lia.
+  - intros m _. destruct m; reflexivity.
+  - intros num t IHt s IHs m H. destruct m as [|v m']; [reflexivity|].
+    cbn [fits_msg]. unfold encode in H. cbn [raw_fields] in H. rewrite ser_app, app_length in H.
+    apply andb_true_iff. split; [apply (IHt num); lia | apply IHs; unfold encode; lia].
+Qed.
+
+Theorem decode_encode s m :
+  wf_schema s = true -> wf_msg s m = true -> N.of_nat (length (encode s m)) < two64 ->
+  decode s (encode s m) = Some m.
+Proof.
+  intros Hs Hw Hl. apply decode_encode_fits; auto. apply (proj2 fits_mut). exact Hl.
+Qed.
+
+(* encode is injective on well-formed messages *)
+Corollary encode_injective s m1 m2 :
+  wf_schema s = true -> wf_msg s m1 = true -> wf_msg s m2 = true ->
+  N.of_nat (length (encode s m1)) < two64 ->
+  encode s m1 = encode s m2 -> m1 = m2.
+Proof.
+  intros Hs H1 H2 Hl E.
+  pose proof (decode_encode s m1 Hs H1 Hl) as D1.
+  assert (Hl2 : N.of_nat (length (encode s m2)) < two64) by (rewrite <- E; exact Hl).
+  pose proof (decode_encode s m2 Hs H2 Hl2) as D2.
+  rewrite E in D1. congruence.
+Qed.
+
+(* ------------------------------------------------------------------ *)
+(* the decoder only produces well-formed messages                      *)
+(* ------------------------------------------------------------------ *)
+Lemma norm_scalar_ok t v : is_scalar t = true -> scalar_ok t (norm_scalar t v) = true.
+Proof.
+  unfold is_scalar, scalar_ok, norm_scalar, sext32, two64, two32, two31.
+  destruct t; intros H; try discriminate.
+  - pose proof (N.mod_lt v 4294967296 ltac:(lia)). lia.
+  - pose proof (N.mod_lt v 18446744073709551616 ltac:(lia)). lia.
+  - pose proof (N.mod_lt v 4294967296 ltac:(lia)).
+    destruct (v mod 4294967296 <? 2147483648) eqn:E; lia.
+  - pose proof (N.mod_lt v 18446744073709551616 ltac:(lia)). lia.
+  - pose proof (N.mod_lt v 4294967296 ltac:(lia)).
+    destruct (v mod 4294967296 <? 2147483648) eqn:E; lia.
+  - destruct (v =? 0); reflexivity.
+Qed.
+
+Lemma forallb_last {A} (f : A -> bool) l d : forallb f l = true -> f d = true -> f (last l d) = true.
+Proof.
+  induction l as [|x l IH]; intros H Hd; [exact Hd|].
+  cbn [forallb] in H. apply andb_true_iff in H. destruct H as [Hx Hl].
+  destruct l as [|y l]; [exact Hx|]. change (last (x :: y :: l) d) with (last (y :: l) d). apply IH; auto.
+Qed.
+
+Lemma all_some_forall {A B} (f : A -> option B) (P : B -> Prop) l r :
+  (forall a b, In a l -> f a = Some b -> P b) -> all_some (map f l) = Some r -> Forall P r.
+Proof.
+  revert r. induction l as [|a l IH]; intros r H E; cbn [map all_some] in E.
+  - inversion E. constructor.
+  - destruct (f a) eqn:Ea; [|discriminate].
+    destruct (all_some (map f l)) eqn:El; [|discriminate]. inversion E; subst.
+    constructor; [apply (H a); [left; reflexivity | exact Ea] | apply IH; auto].
+    intros a' b' Hin. apply H. right. exact Hin.
+Qed.
+
+Theorem decode_wf_mut :
+  (forall t, forall vs ps v, dec_val t vs ps = Some v -> wf_val t v = true)
+  /\
+  (forall s, forall rs m, dec_fields s rs = Some m -> wf_msg s m = true).
+Proof.
+  apply fty_schema_ind.
+  1-6: intros vs ps v H; cbn [dec_val] in H; injection H as <-;
+       match goal with |- wf_val ?t _ = true => exact (norm_scalar_ok t _ eq_refl) end.
+  - intros vs ps v H. cbn [dec_val] in H. inversion H. reflexivity.
+  - intros vs ps v H. cbn [dec_val] in H. destruct (forallb utf8_valid ps) eqn:E; [|discriminate].
+    inversion H; subst. cbn [wf_val]. apply forallb_last; [exact E | reflexivity].
+  - intros s IH vs ps v H. cbn [dec_val] in H. destruct ps as [|p ps]; [inversion H; reflexivity|].
+    destruct (parse_all (p :: ps)); [|discriminate].
+    destruct (dec_fields s (concat l)) eqn:E; [|discriminate]. inversion H; subst.
+    cbn [wf_val]. eapply IH. exact E.
+  - intros s IH vs ps v H. cbn [dec_val] in H.
+    destruct (parse_all ps); [|discriminate].
+    destruct (all_some (map (dec_fields s) l)) eqn:E; [|discriminate]. inversion H; subst.
+    cbn [wf_val]. apply forallb_forall. apply Forall_forall.
+    eapply all_some_forall; [|exact E]. intros a b _ Hab. eapply IH. exact Hab.
+  - intros rs m H. cbn [dec_fields] in H. inversion H. reflexivity.
+  - intros num t IHt s IHs rs m H. cbn [dec_fields] in H.
+    destruct (dec_val t (vars_of num rs) (lens_of num rs)) eqn:E1; [|discriminate].
+    destruct (dec_fields s rs) eqn:E2; [|discriminate]. inversion H; subst.
+    cbn [wf_msg]. apply andb_true_iff. split; [eapply IHt; exact E1 | eapply IHs; exact E2].
+Qed.
+
+Theorem decode_wf s b m : decode s b = Some m -> wf_msg s m = true.
+Proof.
+  unfold decode. destruct (parse b); [|discriminate]. apply (proj2 decode_wf_mut).
+Qed.
+
+(* whatever was accepted re-encodes to bytes that decode to the same message,
+   and a second re-encoding is byte-identical *)
+Theorem reencode_stable s b m :
+  wf_schema s = true -> decode s b = Some m -> N.of_nat (length (encode s m)) < two64 ->
+  decode s (encode s m) = Some m.
+Proof. intros Hs Hd Hl. apply decode_encode; auto. eapply decode_wf; eassumption. Qed.
+
+(* canonical bytes (the image of the encoder) re-encode to themselves *)
+Theorem canonical_reencode s m b :
+  wf_schema s = true -> wf_msg s m = true -> b = encode s m -> N.of_nat (length b) < two64 ->
+  exists m', decode s b = Some m' /\ encode s m' = b.
+Proof.
+  intros Hs Hw -> Hl. exists m. split; [apply decode_encode; auto | reflexivity].
+Qed.
+
+(* fields whose number is not in the schema (unknown fields) do not influence the result *)
+Theorem unknown_field_ignored s a f b :
+  ~ In (fst f) (nums s) -> dec_fields s (a ++ f :: b) = dec_fields s (a ++ b).
+Proof.
+  intros H. apply dec_fields_ext. intros n Hn.
+  assert (Hne : fst f <> n) by (intros E; subst n; contradiction).
+  rewrite !vars_of_app, !lens_of_app.
+  change (f :: b) with ([f] ++ b). rewrite vars_of_app, lens_of_app.
+  rewrite (vars_of_none n [f]), (lens_of_none n [f]) by (constructor; [exact Hne | constructor]).
+  split; reflexivity.
+Qed.
